@@ -69,7 +69,7 @@ def check_str(node: CallExpr, errors: list[Error]) -> None:
 
             errors.append(
                 ErrorInfo(
-                    func.line,
+                    func.end_line or func.line,
                     (func.end_column or 0) - len("replace"),
                     f'Replace `x.replace("\\t", {expr_value})` with `x.expandtabs({tabsize})`',  # noqa: E501
                 )
@@ -111,7 +111,7 @@ def check_bytes(node: CallExpr, errors: list[Error]) -> None:
 
             errors.append(
                 ErrorInfo(
-                    func.line,
+                    func.end_line or func.line,
                     (func.end_column or 0) - len("replace"),
                     f'Replace `x.replace(b"\\t", {expr_value})` with `x.expandtabs({tabsize})`',  # noqa: E501
                 )
